@@ -115,6 +115,8 @@ M = [
     ("m78", "C10", "src/streaming/wal.rs", "        Ok(all_entries)\n", "        all_entries.sort_by_key(|e| e.timestamp);\n        Ok(all_entries)\n", r"R10\.8"),
     ("m79", "C11", "src/replication/state/shard_state.rs", "    pub fn apply_remote_delta(&mut self, delta: ReplicationDelta) {\n", "    pub fn apply_remote_delta(&mut self, delta: ReplicationDelta) {\n        if delta.source_replica == self.replica_id && delta.value.timestamp.time < self.lamport_clock.time {\n            return;\n        }\n", r"R11\.7"),
     ("m80", "C08", "src/replication/state/shard_state.rs", "    pub fn drain_pending_deltas(&mut self) -> Vec<ReplicationDelta> {", "    pub fn reset(&mut self) {\n        *self = ShardReplicaState::new(self.replica_id, self.consistency_level);\n    }\n\n    pub fn drain_pending_deltas(&mut self) -> Vec<ReplicationDelta> {", r"R08\.1:.*assign-through-owner-ref"),
+    ("m81", "C01", "src/redis/executor/hash_ops.rs", "                RespValue::Array(Some(elements))\n            }\n            Some(_) => {\n                RespValue::err(\"WRONGTYPE Operation against a key holding the wrong kind of value\")\n            }\n            None => RespValue::Array(Some(Vec::new())),", "                RespValue::Array(Some(elements))\n            }\n            _ => RespValue::Array(Some(Vec::new())),", r"R01\.13:execute_hgetall"),
+    ("m82", "C01", "src/redis/executor/bitmap_ops.rs", "            Some(_) => (false, true),\n", "            Some(_) => (true, false),\n", r"R01\.13:execute_setbit"),
 ]
 
 
